@@ -112,7 +112,7 @@ func buildTagFields(rt reflect.Type, out, pretty, embedded, omitEmpty bool) (fa 
 			}
 		} else {
 			asString := false
-			omitEmpty := omitEmpty // a tag applies to its own field only
+			fieldOmit := omitEmpty // a tag applies to its own field only
 			key := f.Name
 			if tag, ok := f.Tag.Lookup("json"); ok && 0 < len(tag) {
 				parts := strings.Split(tag, ",")
@@ -131,13 +131,13 @@ func buildTagFields(rt reflect.Type, out, pretty, embedded, omitEmpty bool) (fa 
 				for _, p := range parts[1:] {
 					switch p {
 					case "omitempty":
-						omitEmpty = true
+						fieldOmit = true
 					case "string":
 						asString = true
 					}
 				}
 			}
-			fa = append(fa, newFinfo(&f, key, omitEmpty, asString, pretty, embedded))
+			fa = append(fa, newFinfo(&f, key, fieldOmit, omitEmpty, asString, pretty, embedded))
 		}
 	}
 	return
@@ -166,7 +166,7 @@ func buildExactFields(rt reflect.Type, out, pretty, embedded, omitEmpty bool) (f
 				}
 			}
 		} else {
-			fa = append(fa, newFinfo(&f, f.Name, omitEmpty, false, pretty, embedded))
+			fa = append(fa, newFinfo(&f, f.Name, omitEmpty, omitEmpty, false, pretty, embedded))
 		}
 	}
 	return
@@ -202,7 +202,7 @@ func buildLowFields(rt reflect.Type, out, pretty, embedded, omitEmpty bool) (fa 
 			} else {
 				name = bytes.ToLower(name)
 			}
-			fa = append(fa, newFinfo(&f, string(name), omitEmpty, false, pretty, embedded))
+			fa = append(fa, newFinfo(&f, string(name), omitEmpty, omitEmpty, false, pretty, embedded))
 		}
 	}
 	return
